@@ -27,7 +27,7 @@ def fifo_case(draw, broker):
              "category": "NORMAL", "max_unacked": draw(st.sampled_from([None, 1, 3]))}
     consume = {"op": "consume", "c": 0, "patience": {"mem": 0.2, "redis": 1.0, "amqp": 0.5}[broker]}
     if mode == "drain":
-        n = draw(st.one_of(st.integers(1, 12), st.integers(8, 30)))
+        n = draw(st.one_of(st.integers(1, 12), st.integers(1, 12), st.integers(8, 30), st.integers(8, 30), st.integers(8, 30), st.sampled_from([60, 101, 150])))
         if draw(st.booleans()):
             ops.append(start)
             enq(n)
